@@ -260,7 +260,7 @@ def run_check(pid, tier, seed, jobs=None, verbose=True):
     t0 = time.time()
     check = load_check(pid)
     jobs = jobs or int(os.environ.get('VERIF_JOBS', os.cpu_count() or 4))
-    budget = check.budget[tier]
+    budget = check.budget[tier] * float(os.environ.get('VERIF_BUDGET_SCALE') or 1)     # (scale: for re-checks on a loaded machine)
     tmp = tempfile.mkdtemp(prefix=f'verif-{pid}-')
     env = _worker_env()
     env['TMPDIR'] = tmp          # lock files, marker dirs etc. of the workers die with this directory
